@@ -233,7 +233,7 @@ func clientCloseRemovesAll(c *Ctx, pk *packages.Package, fd *ast.FuncDecl, reg s
 	// the owner comparison
 	var match *ast.IfStmt
 	ast.Inspect(loop.Body, func(n ast.Node) bool {
-		if ifs, ok := n.(*ast.IfStmt); ok && strings.Contains(ExprStr(ifs.Cond), ".client == client") && match == nil {
+		if ifs, ok := n.(*ast.IfStmt); ok && match == nil && ownerCompare(pk, fd, ifs.Cond) {
 			match = ifs
 		}
 		return true
@@ -472,4 +472,35 @@ func R12PointerHandlers(c *Ctx) {
 			}
 		}
 	}
+}
+
+// ownerCompare: cond contains `<entry>.client == <a parameter of fd>` (either order); the parameter is found
+// by resolution, not by name.
+func ownerCompare(pk *packages.Package, fd *ast.FuncDecl, cond ast.Expr) bool {
+	params := map[types.Object]bool{}
+	if fd.Type.Params != nil {
+		for _, f := range fd.Type.Params.List {
+			for _, n := range f.Names {
+				if o := pk.TypesInfo.Defs[n]; o != nil {
+					params[o] = true
+				}
+			}
+		}
+	}
+	found := false
+	ast.Inspect(cond, func(n ast.Node) bool {
+		be, ok := n.(*ast.BinaryExpr)
+		if !ok || be.Op != token.EQL {
+			return true
+		}
+		for _, pr := range [][2]ast.Expr{{be.X, be.Y}, {be.Y, be.X}} {
+			sel, ok1 := ast.Unparen(pr[0]).(*ast.SelectorExpr)
+			id, ok2 := ast.Unparen(pr[1]).(*ast.Ident)
+			if ok1 && ok2 && sel.Sel.Name == "client" && params[pk.TypesInfo.Uses[id]] {
+				found = true
+			}
+		}
+		return true
+	})
+	return found
 }
